@@ -13,6 +13,7 @@ import (
 	"os"
 	"os/exec"
 	"path/filepath"
+	"regexp"
 	"strings"
 	"sync"
 	"syscall"
@@ -55,9 +56,10 @@ type Node struct {
 }
 
 type lockedBuf struct {
-	mu   sync.Mutex
-	b    bytes.Buffer
-	part []byte
+	mu      sync.Mutex
+	b       bytes.Buffer
+	part    []byte
+	dropped int64 // bytes discarded from the front of b (only the tail of a long stderr is kept)
 }
 
 func (l *lockedBuf) Write(p []byte) (int, error) {
@@ -84,6 +86,7 @@ func (l *lockedBuf) keep(p []byte) (int, error) {
 	if l.b.Len() > 8<<20 {
 		// keep the tail only
 		tail := append([]byte(nil), l.b.Bytes()[l.b.Len()-(1<<20):]...)
+		l.dropped += int64(l.b.Len() - len(tail))
 		l.b.Reset()
 		l.b.Write(tail)
 	}
@@ -95,6 +98,78 @@ func (l *lockedBuf) String() string {
 	defer l.mu.Unlock()
 	return l.b.String()
 }
+
+// Mark returns the current position in the captured stderr (complete lines only).
+func (l *lockedBuf) Mark() int64 {
+	l.mu.Lock()
+	defer l.mu.Unlock()
+	return l.dropped + int64(l.b.Len())
+}
+
+// Since returns what was captured after the position mark.
+func (l *lockedBuf) Since(mark int64) string {
+	l.mu.Lock()
+	defer l.mu.Unlock()
+	off := mark - l.dropped
+	if off < 0 {
+		off = 0
+	}
+	if off >= int64(l.b.Len()) {
+		return ""
+	}
+	return string(l.b.Bytes()[off:])
+}
+
+// panicMarks are the texts with which the server (dvid.ReportPanic, the recover handlers of the
+// request middleware and of the sync goroutines) and the Go runtime report a panic on stderr.
+var panicMarks = regexp.MustCompile(`Panic detected|(?m)^panic: |Stack trace from|goroutine \d+ \[running\]|(?m)^fatal error: `)
+
+// requestPanic is the report of the request middleware (the request is then answered with status 500).
+var requestPanic = regexp.MustCompile(`Panic detected on request`)
+
+// PanicReport describes the panic reports found in a piece of stderr.
+type PanicReport struct {
+	Any        bool   // some panic report
+	Background bool   // a report that does not come from the recover handler of a request
+	Excerpt    string // the first report with some context
+}
+
+// ScanPanics looks for panic reports in a piece of captured stderr.
+func ScanPanics(text string) PanicReport {
+	var pr PanicReport
+	loc := panicMarks.FindStringIndex(text)
+	if loc == nil {
+		return pr
+	}
+	pr.Any = true
+	end := loc[0] + 1500
+	if end > len(text) {
+		end = len(text)
+	}
+	pr.Excerpt = text[loc[0]:end]
+	// every "Panic detected" line that is not the request middleware's is a background report; a bare
+	// runtime "panic:" / "fatal error:" is one too (it ends the process)
+	for _, m := range regexp.MustCompile(`(?m)^.*Panic detected[^\n]*`).FindAllString(text, -1) {
+		if !requestPanic.MatchString(m) {
+			pr.Background = true
+			i := strings.Index(text, m)
+			e := i + 1500
+			if e > len(text) {
+				e = len(text)
+			}
+			pr.Excerpt = text[i:e]
+			break
+		}
+	}
+	if !pr.Background && regexp.MustCompile(`(?m)^(panic: |fatal error: )`).MatchString(text) {
+		pr.Background = true
+	}
+	return pr
+}
+
+// StderrMark / StderrSince: positions in the captured stderr of the node.
+func (n *Node) StderrMark() int64            { return n.Stderr.Mark() }
+func (n *Node) StderrSince(mark int64) string { return n.Stderr.Since(mark) }
 
 // Req mirrors dvidnode's request.
 type Req struct {
@@ -134,7 +209,15 @@ type Resp struct {
 	Result json.RawMessage `json:"result,omitempty"`
 	N      uint64          `json:"n,omitempty"`
 	Gates  []GateEvent     `json:"gates,omitempty"`
+	// Panic is set by the node's doHTTP when the server's "Panic detected on request" report is found
+	// inside a body whose status is below 500: the handler had started its answer before it panicked,
+	// so the recovery middleware could not change the status any more.
+	Panic string `json:"panic,omitempty"`
 }
+
+// ServerFault reports an internal error of the server: a 5xx status, or a recovered panic whose
+// report was appended to an answer that had already been started with a 2xx status.
+func (r Resp) ServerFault() bool { return r.Status >= 500 || r.Panic != "" }
 
 // Bytes returns the decoded body.
 func (r Resp) Bytes() []byte {
